@@ -100,7 +100,7 @@ PROP = Property(
         O("13.d", "slice selects characters [start,end) with floor, negative-from-end and clamping for all doubles; len counts characters",
           ["builtins::string::StringBuiltin::slice", "builtins::string::StringBuiltin::len"], "<= 3 characters of 1-2 bytes, all f64 bounds"),
         O("13.e", "join(split(s, p), p) == s", ["builtins::string::StringBuiltin::split", "builtins::array::ArrayBuiltin::join"],
-          "s <= 3, p 1..2 bytes (thorough only)"),
+          "s <= 3, p 1..2 bytes (thorough only; did not finish in the build session: std str::split searcher)"),
     ],
     harnesses=hs,
     assumptions=[
